@@ -146,3 +146,17 @@ Definition check17b (rt : Q) (tiny maxf : bigQ) (e : nat) (table : list (mobData
            (hist : list (opts BQops * nat)) (impl : list (option (list Q))) :=
   let rt := bq rt in
   compareSteps rt tiny maxf e table hist (evalSeq BQops tiny maxf (backendOf table) e hist []) impl.
+
+(* ---- part D: the configuration layer -------------------------------------------------------- *)
+Definition mkC (r : rule) (n : Q) (p : post) : config BQops := @mkCfg BQops r (bq n) p.
+Definition opRule (r : rule) : cop BQops := @OpRule BQops r.
+Definition opLab (n : Q) : cop BQops := @OpLab BQops (bq n).
+Definition opPost (p : post) : cop BQops := @OpPost BQops p.
+
+(* result: (configured rule, does the configured factor equal the implementation's exactly?,
+            configured post-processing, first disagreement of the configured rule's value on the matrix) *)
+Definition check17d (rt : Q) (tiny maxf : bigQ) (c0 : config BQops) (ops : list (cop BQops)) (implFactor : Q)
+           (pw : bigQ -> bigQ) (e : nat) (mob : list (list Q)) (fr : list Q) (impl : list Q) :=
+  let c := configure BQops c0 ops in
+  (c_rule c, BigQ.eq_bool (c_factor c) (bq implFactor), c_post c,
+   checkRule (bq rt) tiny maxf (c_rule c) pw e (bll mob) (bl fr) impl).
